@@ -137,12 +137,41 @@ func decide(prop, hd string, files []string, pkgName string, sums []*gosym.Harne
 	}
 	results := make([]string, len(cands))
 	if doReplay && len(cands) > 0 {
+		// first batch: the first counterexample of every obligation; second batch (only where needed): the spares of
+		// the obligations whose first counterexample did not reproduce
 		var paths []string
-		for _, c := range cands {
-			paths = append(paths, c.path)
+		var idx []int
+		for i, c := range cands {
+			if !c.alt {
+				paths = append(paths, c.path)
+				idx = append(idx, i)
+			}
 		}
-		results = nativeReplayBatch(pkgDirOf(hd), paths, files, pkgName, instrument)
-		ev.Replays += len(cands)
+		for k, r := range nativeReplayBatch(pkgDirOf(hd), paths, files, pkgName, instrument) {
+			results[idx[k]] = r
+		}
+		ev.Replays += len(paths)
+		paths, idx = nil, nil
+		for i := 0; i < len(cands); i++ {
+			if cands[i].alt || strings.HasPrefix(results[i], "reproduced") {
+				continue
+			}
+			for j := i + 1; j < len(cands) && cands[j].alt; j++ {
+				paths = append(paths, cands[j].path)
+				idx = append(idx, j)
+			}
+		}
+		if len(paths) > 0 {
+			for k, r := range nativeReplayBatch(pkgDirOf(hd), paths, files, pkgName, instrument) {
+				results[idx[k]] = r
+			}
+			ev.Replays += len(paths)
+		}
+		for i := range results {
+			if results[i] == "" {
+				results[i] = "not needed: the first counterexample of this obligation reproduced"
+			}
+		}
 	}
 	// an obligation whose first counterexample does not reproduce is represented by the first alternate that does
 	if doReplay {
